@@ -890,6 +890,16 @@ func runCheck(id, tier string) int {
 	if os.Getenv("VERIF_NOEVIDENCE") == "" {
 		writeEvidence(id, tier, seed, &m, knownHits, vioRecords, time.Since(start).Seconds())
 	}
+	if os.Getenv("VERIF_SHOW_OUTCOMES") != "" { // debugging aid
+		var ks []string
+		for k := range m.Outcomes {
+			ks = append(ks, k)
+		}
+		sort.Strings(ks)
+		for _, k := range ks {
+			fmt.Printf("  outcome %8d  %s\n", m.Outcomes[k], k)
+		}
+	}
 	fmt.Printf("%s %s: evaluations=%d distinct=%d states=%d transitions=%d exhaustive=%v known=%d new=%d wall=%.1fs\n",
 		id, tier, m.Evaluations, m.Distinct, m.States, m.Transitions, m.Exhaustive, len(knownHits), len(newOrder), time.Since(start).Seconds())
 	return exit
